@@ -7,7 +7,7 @@ EXTENDS Naturals, Sequences, FiniteSets
 CONSTANTS Tasks
 
 VARIABLES st,        \* [Tasks -> {"idle", "pending", "done"}]
-          due,       \* [Tasks -> <<microseconds, nanoseconds>>]  a RUN invocation may not happen before
+          due,       \* [Tasks -> <<seconds, nanoseconds>>]  a RUN invocation may not happen before
           creq,      \* [Tasks -> BOOLEAN]  a cancel was requested while the task was pending
           nclients,  \* number of references handed to clients
           relBegun, relEnded,
